@@ -7,6 +7,7 @@ import (
 	"compress/zlib"
 	"fmt"
 	"io"
+	"runtime/debug"
 	"strings"
 
 	"seehuhn.de/go/pdf"
@@ -108,6 +109,69 @@ func pngUp(b []byte, cols int) []byte {
 	return out
 }
 
+// hexEncode is ASCIIHexDecode's encoding (with the end-of-data marker).
+func hexEncode(b []byte) []byte {
+	const digits = "0123456789ABCDEF"
+	out := make([]byte, 0, 2*len(b)+1)
+	for _, c := range b {
+		out = append(out, digits[c>>4], digits[c&15])
+	}
+	return append(out, '>')
+}
+
+// stmEncoding returns what a spelling variant puts into the stream dictionary
+// (/Filter and /DecodeParms as direct objects; nil = no such entry) and the
+// bytes stored for the decoded content plain. The parameter dictionaries:
+// FlateDecode <</Predictor 12 /Columns 4>> (not the default: the stored bytes
+// differ), ASCIIHexDecode <<>> (the filter has no parameters), Crypt <</Type
+// /CryptFilterDecodeParms /Name /Identity>> (absent means Identity as well).
+func stmEncoding(v int, plain []byte) (filter, parms pdf.Object, raw []byte) {
+	sp, ok := spellingOf(v)
+	if !ok {
+		panic("stmEncoding: not a spelling variant")
+	}
+	raw = plain
+	var names pdf.Array
+	var dicts pdf.Array
+	withParms := sp.parms != '-'
+	// encode innermost filter first
+	for i := len(sp.chain) - 1; i >= 0; i-- {
+		var d pdf.Object
+		switch sp.chain[i] {
+		case 'F':
+			if withParms {
+				d = pdf.Dict{"Predictor": pdf.Integer(12), "Columns": pdf.Integer(4)}
+				raw = deflate(pngUp(raw, 4))
+			} else {
+				raw = deflate(raw)
+			}
+		case 'H':
+			if withParms && len(sp.chain) == 1 {
+				d = pdf.Dict{}
+			}
+			raw = hexEncode(raw)
+		case 'C':
+			if withParms {
+				d = pdf.Dict{"Type": pdf.Name("CryptFilterDecodeParms"), "Name": pdf.Name("Identity")}
+			}
+		}
+		names = append(pdf.Array{pdf.Name(filterLongNames[sp.chain[i]])}, names...)
+		dicts = append(pdf.Array{d}, dicts...)
+	}
+	if sp.array {
+		filter = names
+	} else {
+		filter = names[0]
+	}
+	switch sp.parms {
+	case 'd':
+		parms = dicts[0]
+	case 'a':
+		parms = dicts
+	}
+	return filter, parms, raw
+}
+
 // source ----------------------------------------------------------------------
 
 type source struct {
@@ -141,6 +205,10 @@ func (s *source) itemObj(it Item, j, p int) pdf.Object {
 		return itemStr(j, p)
 	case 'n':
 		return nil
+	case 'N':
+		return pdf.Array(nil)
+	case 'M':
+		return pdf.Dict(nil)
 	case 'a':
 		return pdf.Array{}
 	case 'd':
@@ -153,6 +221,30 @@ func (s *source) itemObj(it Item, j, p int) pdf.Object {
 		return s.free
 	}
 	panic("bad item")
+}
+
+// directValue builds the hand-made value of a 'V' call the way a caller
+// would: Go nils where the description says so.
+func (s *source) directValue(o Obj) pdf.Native {
+	switch o.K {
+	case 'N':
+		return pdf.Array(nil)
+	case 'M':
+		return pdf.Dict(nil)
+	case 'A':
+		a := make(pdf.Array, len(o.It))
+		for p, it := range o.It {
+			a[p] = s.itemObj(it, directJ, p)
+		}
+		return a
+	case 'D':
+		d := pdf.Dict{}
+		for p, it := range o.It {
+			d[dictKeys[p]] = s.itemObj(it, directJ, p)
+		}
+		return d
+	}
+	return nil // 'n'
 }
 
 // describeSource fixes the object numbers of a source without writing it:
@@ -238,8 +330,24 @@ func buildSource(g Graph, cfg string) (*source, error) {
 					d["Filter"], d["DecodeParms"] = pdf.Array{fRef}, pdf.Array{pRef}
 				}
 				raw = deflate(pngUp(plain, 4))
+			default:
+				if _, ok := spellingOf(o.V); ok {
+					// a spelling variant: everything direct
+					var f, p pdf.Object
+					f, p, raw = stmEncoding(o.V, plain)
+					d["Filter"] = f
+					if p != nil {
+						d["DecodeParms"] = p
+					}
+				}
 			}
-			err = pdf.VerifPutRawStream(w, ref, d, raw, lengthRef)
+			if stmCryptFirst(o.V) {
+				// /Crypt (Identity) first: the bytes are stored as they are,
+				// also in an encrypted file
+				err = pdf.VerifPutRawStreamPlain(w, ref, d, raw)
+			} else {
+				err = pdf.VerifPutRawStream(w, ref, d, raw, lengthRef)
+			}
 		}
 		if err != nil {
 			return nil, fmt.Errorf("writing object %d (%s): %w", j, o, err)
@@ -276,6 +384,9 @@ func (s *source) verify() error {
 			if !ok {
 				return fmt.Errorf("object %d reads as %T", j, got)
 			}
+			if !stmDecodable(o.V) {
+				continue // /Filter and /DecodeParms do not fit together: nothing to decode
+			}
 			data, err := pdf.ReadAll(r, nil, stm, 1<<20)
 			if err != nil {
 				return fmt.Errorf("object %d: %w", j, err)
@@ -311,12 +422,23 @@ func (s *source) verify() error {
 // J), 'D' Redirect(ref of object J, fresh target object), 'G'
 // CopyReference(stale reference to object J: same number, wrong generation).
 // J = -1 stands for the dangling reference (only with 'R').
+// 'V' Copy(hand-made direct value D): a value built by the caller, not read
+// from the source (see directValues); D is the value in the object syntax
+// ("V:<n0>" = Copy(pdf.Dict{"A": nil, "B": reference to object 0})).
 type Op struct {
 	K byte
 	J int
+	D string
 }
 
+// directJ is the "object number" of a hand-made direct value (it decides the
+// integers inside, which differ from those of every object of the graph).
+const directJ = 8
+
 func (o Op) String() string {
+	if o.K == 'V' {
+		return "V:" + o.D
+	}
 	if o.J < 0 {
 		return string(rune(o.K)) + "x"
 	}
@@ -334,6 +456,19 @@ func progString(p []Op) string {
 func parseProg(s string, n int) ([]Op, error) {
 	var out []Op
 	for _, f := range strings.Fields(s) {
+		if strings.HasPrefix(f, "V:") {
+			o, err := parseObj(f[2:])
+			if err != nil || strings.IndexByte("ADnNM", o.K) < 0 || o.String() != f[2:] {
+				return nil, fmt.Errorf("bad direct value in %q: %v", f, err)
+			}
+			for _, it := range o.It {
+				if j, ok := it.mention(); ok && j >= n {
+					return nil, fmt.Errorf("bad direct value in %q: no object %d", f, j)
+				}
+			}
+			out = append(out, Op{K: 'V', D: f[2:]})
+			continue
+		}
 		if len(f) != 2 || strings.IndexByte("CRDG", f[0]) < 0 {
 			return nil, fmt.Errorf("bad op %q", f)
 		}
@@ -393,6 +528,7 @@ func redirectMarker(k int) pdf.Name { return pdf.Name(fmt.Sprintf("Redirected-%d
 // execute runs the program with the real Copier on a fresh target.
 func execute(s *source, prog []Op, tgtCfg string) (ex *execution) {
 	ex = &execution{}
+	var direct *Obj // the hand-made value being copied by a 'V' call
 	defer func() {
 		if p := recover(); p != nil {
 			if _, ok := p.(getBudgetExceeded); ok {
@@ -400,8 +536,16 @@ func execute(s *source, prog []Op, tgtCfg string) (ex *execution) {
 				ex.fatal = fmt.Sprintf("the copy read the source more than %d times (a correct copy of %d objects needs fewer than 100): unbounded recursion", getBudget, len(s.g))
 			} else {
 				msg := fmt.Sprint(p)
+				fn := panicSite(debug.Stack())
 				ex.fatalFP = "panic:" + normaliseMsg(msg)
-				ex.fatal = "panic: " + msg
+				if fn != "" {
+					ex.fatalFP = "panic:" + fn + ":" + normaliseMsg(msg)
+				}
+				if direct != nil && direct.hasNilDictEntry() && strings.Contains(msg, "nil pointer dereference") && fn != "" {
+					// the class: a dictionary entry whose Go value is nil
+					ex.fatalFP = "panic:" + fn + ":nil-entry"
+				}
+				ex.fatal = "panic in " + fn + ": " + msg
 			}
 		}
 	}()
@@ -455,6 +599,23 @@ func execute(s *source, prog []Op, tgtCfg string) (ex *execution) {
 					st.err = fmt.Errorf("Put of the copied value: %w", err)
 				}
 			}
+		case 'V':
+			o, err := parseObj(op.D)
+			if err != nil {
+				ex.fatalFP, ex.fatal = "infra:case", "bad direct value: "+err.Error()
+				return ex
+			}
+			direct = &o
+			var res pdf.Native
+			res, st.err = c.Copy(s.directValue(o))
+			if st.err == nil {
+				st.direct = res
+				st.ref = w.Alloc()
+				if err := w.Put(st.ref, res); err != nil {
+					st.err = fmt.Errorf("Put of the copied value: %w", err)
+				}
+			}
+			direct = nil
 		case 'D':
 			st.ref = w.Alloc()
 			if err := w.Put(st.ref, redirectMarker(nRedirect)); err != nil {
@@ -515,6 +676,39 @@ func (ex *execution) stateKey() string {
 	}
 	fmt.Fprintf(&b, "|D%d", asked)
 	return b.String()
+}
+
+// panicSite names the innermost function of package pdf on the stack of a
+// panic ("CopyDict" for seehuhn.de/go/pdf.(*Copier).CopyDict).
+func panicSite(stack []byte) string {
+	lines := strings.Split(string(stack), "\n")
+	past := false
+	for _, l := range lines {
+		if strings.HasPrefix(l, "panic(") {
+			past = true
+			continue
+		}
+		if !past || strings.HasPrefix(l, "\t") {
+			continue
+		}
+		const pkg = "seehuhn.de/go/pdf."
+		if strings.HasPrefix(l, pkg) {
+			fn := l[len(pkg):]
+			if i := strings.IndexByte(fn, '('); i > 0 && fn[0] != '(' {
+				fn = fn[:i]
+			} else if fn[0] == '(' {
+				// method: (*Copier).CopyDict(...)
+				if j := strings.Index(fn, ")."); j > 0 {
+					fn = fn[j+2:]
+					if i := strings.IndexByte(fn, '('); i > 0 {
+						fn = fn[:i]
+					}
+				}
+			}
+			return fn
+		}
+	}
+	return ""
 }
 
 func normaliseMsg(s string) string {
